@@ -703,6 +703,47 @@ example : wireKey true (Verif.s "016") = some (certKey 16) ∧ wireKey true (Ver
     wireKey true (Verif.s "18446744073709551616") = none ∧
     wireKey true (Verif.s "18446744073709551615") = some (certKey 18446744073709551615) ∧
     wireKey false (Verif.s "0x10") = some (certKey 16) ∧ canonSSHSerialOld (Verif.s "016") = some (Verif.s "016") := by decide
+/-! ## 4d. the ACME revoke-cert handler -/
+
+/-- **acme_reason_codes.** The reason codes the handler accepts are exactly: none, 0-6, 8, 9, 10. -/
+theorem acme_reason_codes (r : Option Int) :
+    acmeReasonOK r = true ↔ r = none ∨ ∃ n, r = some n ∧ 0 ≤ n ∧ n ≤ 10 ∧ n ≠ 7 := by
+  cases r with
+  | none => simp [acmeReasonOK]
+  | some n => simp [acmeReasonOK, and_assoc]
+
+/-- **acme_revoke_exact.** One ACME revoke-cert request, from any state of the tables:
+    * signed by another account or by a key that is not the certificate's: refused (403), tables untouched;
+    * otherwise, serial already revoked: `alreadyRevoked`, tables untouched (whatever the reason code);
+    * otherwise, reason code out of range: `badRevocationReason`, tables untouched;
+    * otherwise acknowledged, and the serial is in the X.509 table afterwards with every earlier record unchanged.
+    Hence only the owning account or a holder of the certificate's key can change the table, and an acknowledged
+    ACME revocation is stored (so `revoked_blocks_full` applies to it). -/
+theorem acme_revoke_exact (g : G) (key : Str) (tag : Nat) (signer : AcmeSigner) (reason : Option Int) :
+    (signer.authorized = false → acmeRevoke g key tag signer reason = (g, .unauthorized)) ∧
+    (signer.authorized = true → has g.x509 key = true → acmeRevoke g key tag signer reason = (g, .already)) ∧
+    (signer.authorized = true → has g.x509 key = false → acmeReasonOK reason = false →
+      acmeRevoke g key tag signer reason = (g, .badReason)) ∧
+    (signer.authorized = true → has g.x509 key = false → acmeReasonOK reason = true →
+      (acmeRevoke g key tag signer reason).2 = .ok ∧ has (acmeRevoke g key tag signer reason).1.x509 key = true ∧
+      (acmeRevoke g key tag signer reason).1.ssh = g.ssh ∧
+      ∀ k v, get g.x509 k = some v → get (acmeRevoke g key tag signer reason).1.x509 k = some v) := by
+  refine ⟨?_, ?_, ?_, ?_⟩
+  · intro h; simp [acmeRevoke, h]
+  · intro h1 h2; simp [acmeRevoke, h1, h2]
+  · intro h1 h2 h3; simp [acmeRevoke, h1, h2, h3]
+  · intro h1 h2 h3
+    have hn : get g.x509 key = none := by
+      unfold has at h2; cases hg : get g.x509 key <;> simp [hg] at h2 ⊢
+    have hsw : (casNil g.x509 key tag).2 = true := (casNil_swapped _ _ _).2 hn
+    simp [acmeRevoke, h1, h2, h3, Machine.run, Machine.exec, machine, step, stepRevoke, Kind.isRevoke, Kind.isSSH,
+      G.table, G.setTable, hsw]
+    refine ⟨has_casNil_same _ _ _, fun k v hv => casNil_mono _ _ _ _ _ hv⟩
+
+example : (acmeRevoke { x509 := [], ssh := [] } (Verif.s "16") 0 .otherAccount (some 1)).2 = .unauthorized ∧
+    (acmeRevoke { x509 := [], ssh := [] } (Verif.s "16") 0 .certKey (some 7)).2 = .badReason ∧
+    (acmeRevoke { x509 := [], ssh := [] } (Verif.s "16") 0 .certKey (some 1)).2 = .ok ∧
+    (acmeRevoke (acmeRevoke { x509 := [], ssh := [] } (Verif.s "16") 0 .owner none).1 (Verif.s "16") 1 .certKey (some 7)).2 = .already := by decide
 /-! ## 5. historic: the SSH route before c1e180f did not canonicalise (D13, fixed) -/
 
 def mk (kind : Kind) (key : String) (tag : Nat) : Req :=
